@@ -221,7 +221,7 @@ def _half_line_moments(ops, phi, m, s, kmax):
     return I
 
 
-def relu_minorant_case(Dy, wsign, timeout=900):
+def relu_minorant_case(Dy, wsign, timeout=900, N=1):
     """C17, 'lb <= true expectation' for the rectified-linear link (Dx = 1, one noise unit, square A), by a WITNESS:
     with the two variational parameters replaced by ARBITRARY positive numbers (stub of _get_omega_dagger / _get_omega_star on
     the instance) the returned value must EQUAL E_p(x)[g(x)] for the function
@@ -230,18 +230,19 @@ def relu_minorant_case(Dy, wsign, timeout=900):
     which is a pointwise minorant of ln N(y; Mx+b, Sigma(x)) by two instances of ln t <= t - 1 (t = (1+h)/(1+o)).  Hence
     lb <= E[ln p(y|x)] for every value of the variational parameters, in particular the library's.  If the equality fails the
     replay does NOT compare with the witness but with the property's own oracle: adaptive quadrature of the true expectation;
-    only lb > truth + 1e-6 is a violation (a different valid bound would end as inconclusive, not as an alarm)."""
-    cid = f"C17/relu-bound-valid/Dx1Dy{Dy}Da{Dy}Dk1/w{'pos' if wsign > 0 else 'neg'}"
+    only lb > truth + 1e-6 is a violation (a different valid bound would end as inconclusive, not as an alarm).
+    N > 1: the paired calling convention (N observations with N prior components, own variational parameters per pair)."""
+    cid = f"C17/relu-bound-valid/Dx1Dy{Dy}Da{Dy}Dk1/w{'pos' if wsign > 0 else 'neg'}" + (f"/N{N}" if N > 1 else "")
     cfg = dict(clause="rectified-linear link: returned value never exceeds the true expected log-density (witness minorant, arbitrary variational parameters)",
-               Dx=1, Dy=Dy, Da=Dy, Dk=1, weight_sign=wsign)
+               Dx=1, Dy=Dy, Da=Dy, Dk=1, weight_sign=wsign, N=N)
 
     def declare(b):
         b.free("M", (1, Dy, 1)); b.free("bv", (1, Dy)); b.free("A", (1, Dy, Dy))
         b.pos("wabs", (1, 1)); b.free("w0", (1,))
         b.derived("W", (1, 2), lambda I, ops: np.array([[I["w0"][0], I["wabs"][0, 0] * ops.c(wsign)]], dtype=object))
-        b.spd("Sx", 1, 1); b.free("mx", (1, 1)); b.free("y", (1, Dy))
-        b.pos("omd", (1,)); b.pos("oms", (1,))
-        b.phi_slots(4)
+        b.spd("Sx", N, 1); b.free("mx", (N, 1)); b.free("y", (N, Dy))
+        b.pos("omd", (N,)); b.pos("oms", (N,))
+        b.phi_slots(4 * N)
 
     def fn(**A):
         from ..phi import patched_norm
@@ -255,36 +256,39 @@ def relu_minorant_case(Dy, wsign, timeout=900):
 
     def claims(I, O, ops):
         if not ops.symbolic:
-            return [("GE0", "true expectation (adaptive quadrature) - returned value", np.array([_relu_truth_quad(I, Dy) - float(np.asarray(O["val"]).reshape(-1)[0])]), None)]
+            val = np.asarray(O["val"], dtype=float).reshape(-1)
+            return [("GE0", "true expectation (adaptive quadrature) - returned value", np.array([_relu_truth_quad(I, Dy, n) - val[n] for n in range(N)]), None)]
         M, bb, A_ = I["M"][0], I["bv"][0], I["A"][0]
-        y = I["y"][0]
         w0 = I["W"][0, 0]; w = I["W"][0, 1]
         phi = ops.ctx.phi
-        m = I["mx"][0, 0]
-        sx = ops.sqrt(I["Sx"][0, 0, 0])
-        mh = w * m + w0
-        sh = I["wabs"][0, 0] * sx
-        od, os_ = I["omd"][0], I["oms"][0]
         Ai, dA = spec.inv(ops, A_)
-        # z(h) = alpha + beta h   with x = (h - w0)/w
-        q = w0 / w
-        r0 = np.array([y[i] - bb[i] + M[i, 0] * q for i in range(Dy)], dtype=object)
-        alpha = spec.mv(Ai, r0)
-        beta = spec.mv(Ai, np.array([-(M[i, 0] / w) for i in range(Dy)], dtype=object))
-        Eh, Eh2 = mh, mh * mh + sh * sh
-        hom = ops.zero()
-        for i in range(Dy):
-            hom = hom + alpha[i] * alpha[i] + ops.c(2) * alpha[i] * beta[i] * Eh + beta[i] * beta[i] * Eh2
-        # tilted half-line moments: int_{h>0} h^k exp(-kappa h) N(h; mh, sh^2) dh = exp(-kappa mh + kappa^2 sh^2/2) I_k(mh - kappa sh^2, sh)
-        kappa = ops.one() / (ops.one() + os_)
-        C = ops.exp(-kappa * mh + kappa * kappa * sh * sh * ops.c(Fraction(1, 2)))
-        J = _half_line_moments(ops, phi, mh - kappa * sh * sh, sh, 3)
-        pref = ops.exp(os_ * kappa) * kappa        # exp(-ln(1+o*) + o*/(1+o*))
-        het = pref * C * (alpha[0] * alpha[0] * J[1] + ops.c(2) * alpha[0] * beta[0] * J[2] + beta[0] * beta[0] * J[3])
-        I0, I1 = _half_line_moments(ops, phi, mh, sh, 1)
-        ld = ops.lnabs(dA * dA) + I0 * ops.log(ops.one() + od) + (I1 - I0 * od) / (ops.one() + od)
-        want = ops.c(Fraction(-1, 2)) * (hom - het) - ops.c(Fraction(1, 2)) * ld - ops.c(Fraction(Dy, 2)) * ops.ln2pi()
-        return [("relu link: integrate_log_conditional_y = E_p[g], g a pointwise minorant of ln p(y|x) (arbitrary variational parameters)", O["val"], np.array([want], dtype=object))]
+        want = ops.zeros((N,))
+        for n in range(N):
+            y = I["y"][n]
+            m = I["mx"][n, 0]
+            sx = ops.sqrt(I["Sx"][n, 0, 0])
+            mh = w * m + w0
+            sh = I["wabs"][0, 0] * sx
+            od, os_ = I["omd"][n], I["oms"][n]
+            # z(h) = alpha + beta h   with x = (h - w0)/w
+            q = w0 / w
+            r0 = np.array([y[i] - bb[i] + M[i, 0] * q for i in range(Dy)], dtype=object)
+            alpha = spec.mv(Ai, r0)
+            beta = spec.mv(Ai, np.array([-(M[i, 0] / w) for i in range(Dy)], dtype=object))
+            Eh, Eh2 = mh, mh * mh + sh * sh
+            hom = ops.zero()
+            for i in range(Dy):
+                hom = hom + alpha[i] * alpha[i] + ops.c(2) * alpha[i] * beta[i] * Eh + beta[i] * beta[i] * Eh2
+            # tilted half-line moments: int_{h>0} h^k exp(-kappa h) N(h; mh, sh^2) dh = exp(-kappa mh + kappa^2 sh^2/2) I_k(mh - kappa sh^2, sh)
+            kappa = ops.one() / (ops.one() + os_)
+            C = ops.exp(-kappa * mh + kappa * kappa * sh * sh * ops.c(Fraction(1, 2)))
+            J = _half_line_moments(ops, phi, mh - kappa * sh * sh, sh, 3)
+            pref = ops.exp(os_ * kappa) * kappa        # exp(-ln(1+o*) + o*/(1+o*))
+            het = pref * C * (alpha[0] * alpha[0] * J[1] + ops.c(2) * alpha[0] * beta[0] * J[2] + beta[0] * beta[0] * J[3])
+            I0, I1 = _half_line_moments(ops, phi, mh, sh, 1)
+            ld = ops.lnabs(dA * dA) + I0 * ops.log(ops.one() + od) + (I1 - I0 * od) / (ops.one() + od)
+            want[n] = ops.c(Fraction(-1, 2)) * (hom - het) - ops.c(Fraction(1, 2)) * ld - ops.c(Fraction(Dy, 2)) * ops.ln2pi()
+        return [("relu link: integrate_log_conditional_y[n] = E_{p_n}[g], g a pointwise minorant of ln p(y_n|x) (arbitrary variational parameters)", O["val"], want)]
 
     def env(ctx, rng):
         from ..case import random_env
@@ -295,14 +299,14 @@ def relu_minorant_case(Dy, wsign, timeout=900):
     return Case(cid, PROP, cfg, declare, fn, claims, timeout=timeout, env=env, sat_note=WITNESS_NOTE)
 
 
-def _relu_truth_quad(I, Dy):
+def _relu_truth_quad(I, Dy, n=0):
     """E_{N(x; m, s^2)}[ln N(y; M x + b, AA' + a_1 a_1' relu(w x + w0))] by piecewise adaptive quadrature (float replay only)"""
     import math
     from scipy import integrate
     M, bb, A_ = np.asarray(I["M"][0], float), np.asarray(I["bv"][0], float), np.asarray(I["A"][0], float)
-    y = np.asarray(I["y"][0], float)
+    y = np.asarray(I["y"][n], float)
     w0, w = float(I["W"][0, 0]), float(I["W"][0, 1])
-    m, s = float(I["mx"][0, 0]), math.sqrt(float(I["Sx"][0, 0, 0]))
+    m, s = float(I["mx"][n, 0]), math.sqrt(float(I["Sx"][n, 0, 0]))
     AAt = A_ @ A_.T
     a1 = A_[:, 0]
 
@@ -597,6 +601,7 @@ def cases(tier, seed=0):
     for Dy in (1, 2):
         for wsign in (1, -1):
             out.append(relu_minorant_case(Dy, wsign))
+    out.append(relu_minorant_case(1, 1, N=2)); out.append(relu_minorant_case(2, -1, N=2))
     for link in ("exp", "cosh"):
         for (Dx, Dy) in ((1, 1), (1, 2), (2, 1)):
             out.append(jj_minorant_case(link, Dx, Dy))
